@@ -409,6 +409,46 @@ def check_blockwise_uri(res):
                 sw.dispose()
 
 
+def check_shared_site(res):
+    """One Site object mounted under several prefixes of one root (and under a nested site): every mount routes to it and every mount
+    is listed - whichever of them a listing reaches first."""
+    from aiocoap.resource import WKCResource
+    for mounts in ((("v1",), ("latest",)), (("v1",), ("latest",), ("b", "f")), (("a",), ("a", "a"))):
+        log = []
+        inner = resource.Site()
+        inner.add_resource(["t"], Rec("Rt", log, rt="x"))
+        inner.add_resource(["d", "e"], Rec("Rde", log))
+        root = resource.Site()
+        for mp in mounts:
+            root.add_resource(list(mp), inner)
+        root.add_resource([".well-known", "core"], WKCResource(root.get_resources_as_linkheader))
+        sw = SiteWorld(lambda sw_: root)
+        case = {"shared_site": [list(mp) for mp in mounts]}
+        try:
+            res.evaluations += 1
+            res.traces += 1
+            for rnd in range(2):
+                r = sw.do(Message(code=GET, uri_path=[".well-known", "core"]), 1)
+                try:
+                    got = sorted(h for h, at in parse_linkformat(r.payload.decode("utf8")) if h.startswith("/") and not h.startswith("/.well-known"))
+                except Exception as e:
+                    got = ["unparsable: %s" % e]
+                want = sorted("/" + "/".join(mp + tail) for mp in mounts for tail in (("t",), ("d", "e")))
+                if got != want:
+                    res.violate(Violation("discovery", want, got, "resource.py:Site.get_resources_as_linkheader", case, key="shared-site"))
+                    break
+            for mp in mounts:
+                del log[:]
+                r = sw.do(Message(code=GET, uri_path=list(mp) + ["t"]), 1)
+                if [x[0] for x in log] != ["Rt"] or not r.code.is_successful():
+                    res.violate(Violation("routing", "Rt", {"code": r.code.dotted, "handler": log}, "resource.py:Site._find_child_and_pathstripped_message", case,
+                                          key="shared-site-route"))
+            res.signatures.add(core.digest(("shared", mounts)))
+            res.outcomes.add(core.digest(("shared", len(mounts))))
+        finally:
+            sw.dispose()
+
+
 INNER = [((((), 0),), (), ()), (((("a",), 1),), (), ()), (((("a", "b"), 2), ((), 3)), (), ()),
          (((("a",), 0),), ((("b",), ((((), 1), (("a",), 0)), (), ())),), ())]    # the last one nests a second level at inner /b
 
@@ -459,6 +499,7 @@ def job(arg):
             for with_wkc in (True, False):
                 check_abbrev(res, cfg, with_wkc)
         check_blockwise_uri(res)
+        check_shared_site(res)
         res.sample({"uri_path_abbrev": 301, "same_as_path": list(ABBREV[301])})
     else:
         histories(res, items)
